@@ -791,6 +791,7 @@ func ruleNegIdx(c *Ctx) {
 	for _, b := range c.bodies() {
 		l := c.L
 		b.appendTokenObligation(l)
+		b.addRangeObligation(l)
 		for _, name := range []string{"get", "set", "add", "remove"} {
 			fn := b.method(b.Lib, "partialArray", name)
 			if fn == nil {
@@ -1030,5 +1031,102 @@ func (b *Body) appendTokenObligation(l *Ledger) {
 		l.add("R-NEGIDX", b.Name, key, b.posOf(blk.Instrs[len(blk.Instrs)-1]), Violated, "the \"-\" branch does not append the value to the element slice and return nil", true)
 	default:
 		l.add("R-NEGIDX", b.Name, key, b.posOf(blk.Instrs[len(blk.Instrs)-1]), Discharged, "key == \"-\" → append(d.nodes, val); return nil — no number parsing, no option on that path", true)
+	}
+}
+
+
+// addRangeObligation: an add at a parsed index succeeds only for an index up
+// to the length of the array (index == length appends; anything beyond is an
+// error, RFC 6902 §4.1). Decided with the linear facts at every successful
+// return that follows the index parse: len(array at entry) - index >= 0.
+func (b *Body) addRangeObligation(l *Ledger) {
+	fn := b.method(b.Lib, "partialArray", "add")
+	if fn == nil || len(fn.Params) < 2 {
+		return
+	}
+	key := "(*partialArray).add: success only for an index up to the length of the array"
+	var parse *ssa.Call
+	var idx ssa.Value
+	allInstrs(fn, func(i ssa.Instruction) {
+		call, ok := i.(*ssa.Call)
+		if !ok {
+			return
+		}
+		f := call.Call.StaticCallee()
+		if f == nil {
+			return
+		}
+		res := f.Signature.Results()
+		isParser := stdName(f) == "strconv.Atoi"
+		if !isParser && res.Len() == 2 && isErrorType(res.At(1).Type()) {
+			if bt, ok := res.At(0).Type().Underlying().(*types.Basic); ok && bt.Kind() == types.Int {
+				for _, a := range call.Call.Args {
+					if a == ssa.Value(fn.Params[1]) {
+						isParser = true
+					}
+				}
+			}
+		}
+		if isParser {
+			for _, ex := range extractOf(call, 0) {
+				parse, idx = call, ex
+			}
+		}
+	})
+	if parse == nil {
+		l.add("R-NEGIDX", b.Name, key, b.rel(fn.Pos()), Undecided, "no parse of the key into an int found", false)
+		return
+	}
+	a := newLinAn(b, fn)
+	// the length of the array at entry: the first len() of the receiver's elements that follows the parse
+	var ln lin
+	haveLen := false
+	allInstrs(fn, func(i ssa.Instruction) {
+		if haveLen {
+			return
+		}
+		call, ok := i.(*ssa.Call)
+		if !ok {
+			return
+		}
+		arg, ok := lenArg(call)
+		if !ok {
+			return
+		}
+		p, okp := a.accessPath(arg, 0)
+		if !okp {
+			return
+		}
+		recv := fn.Params[0].Name()
+		if p == recv+".nodes" || p == "*"+recv {
+			if lf, ok := a.lenOfX(arg); ok {
+				ln, haveLen = lf, true
+			}
+		}
+	})
+	if !haveLen {
+		l.add("R-NEGIDX", b.Name, key, b.rel(fn.Pos()), Violated, "the method never looks at the length of the array: an index beyond the end is not rejected", true)
+		return
+	}
+	bad := ""
+	n := 0
+	for _, r := range liveReturns(fn) {
+		if len(r.Results) != 1 || !isNilConst(r.Results[0]) {
+			continue
+		}
+		if !parse.Block().Dominates(r.Block()) {
+			continue // the "-" branch
+		}
+		n++
+		facts := a.phiFacts(r.Block(), a.factsAt(r.Block()))
+		goal := ln.add(a.expr(idx), -1)
+		if !linEntails(facts, goal) {
+			bad = "at the successful return at " + b.posOf(r) + " the facts do not give index <= len(array): an add (or a copy/move destination) at an index beyond the end is carried out — appended — instead of being reported as an invalid index"
+		}
+	}
+	if bad != "" {
+		l.add("R-NEGIDX", b.Name, key, b.rel(fn.Pos()), Violated, bad, true)
+	} else {
+		l.add("R-NEGIDX", b.Name, key, b.rel(fn.Pos()), Discharged, fmt.Sprintf("%d successful return(s) after the index parse, each with len(array) - index >= 0 entailed by the dominating comparisons", n), true)
 	}
 }
